@@ -67,3 +67,13 @@ package state
 //@ requires s != nil && stream != nil
 //@ modifies all, c14Consumed, c14K, c14Sz, c14P, c14E
 //@ assert before return#1: [validators] s.validators == msg.ValSet
+
+// ---------------------------------------------------------------------------------------------------------------------
+// Clause 3 ("handlers reject rather than crash"): Validators.GetByIndex is the only bounds check between the attacker-chosen
+// SingleVote.VoterIdx / EvidenceDoubleSignV5.SignerIdx and the validator list (ucon.RecoverSignerInfo, staking.processDoubleSignV5).
+// It never panics, returns the element exactly for indices inside the list, and (nil, false) for every other index.
+//@ func (Validators).GetByIndex props C14
+//@ panics none
+//@ modifies nothing
+//@ ensures [in-range] 0 <= index && index < len(s.validators) ==> result0 == s.validators[index] && result1
+//@ ensures [out-of-range-is-nil] !(0 <= index && index < len(s.validators)) ==> result0 == nil && !result1
